@@ -47,6 +47,7 @@ import (
 	"time"
 
 	"github.com/wundergraph/graphql-go-tools/v2/pkg/engine/datasource/graphql_datasource"
+	"github.com/coder/websocket"
 	client "github.com/wundergraph/graphql-go-tools/v2/pkg/engine/datasource/graphql_datasource/subscriptionclient"
 )
 
@@ -74,6 +75,7 @@ type Step struct {
 	S int    `json:"s"`
 	C int    `json:"c"`
 	K string `json:"k"`
+	V string `json:"v"` // Send next: payload variant d | de | dx
 }
 
 type Schedule struct {
@@ -85,6 +87,8 @@ type Schedule struct {
 	IdleMs  int    `json:"idle_ms"`
 	Key     []int  `json:"key"`
 	Dialler []int  `json:"dialler"` // spec connection -> dialling subscriber (as predicted by the generator)
+	Bad     []bool `json:"bad"`     // subscriber -> its request cannot be encoded (invalid raw variables)
+	Ping    bool   `json:"ping"`    // client pings on (every 300 ms) with a pong timeout (100 ms); a "Mute c" step makes the server stop answering
 	Reach   []bool `json:"reach"`   // spec connection -> its dial reaches the server (false: dialled with an already cancelled ctx)
 	Steps   []Step `json:"steps"`
 	Slack   int    `json:"slack_ms"`
@@ -119,7 +123,7 @@ func wsProto(p string) string {
 
 // tuples builds the two option tuples of a schedule.
 func tuples(s Schedule) []tuple {
-	base := tuple{Path: "/graphql", Hdr: "k", Proto: wsProto(s.Proto), Payload: "a"}
+	base := tuple{Path: "/graphql", Hdr: "k", Proto: wsProto(s.Proto), Payload: `{"p":"a"}`}
 	other := base
 	switch s.Variant {
 	case "endpoint":
@@ -136,10 +140,19 @@ func tuples(s Schedule) []tuple {
 			other.Proto = protoGTWS // auto vs explicit: different keys, same negotiated protocol
 		}
 	case "payload":
-		other.Payload = "b"
+		other.Payload = `{"p":"b"}`
 	case "nopayload":
 		base.Payload = ""
-		other.Payload = "b"
+		other.Payload = `{"p":"b"}`
+	// init payloads that are different JSON documents but look alike when printed loosely
+	case "payload-type":
+		base.Payload, other.Payload = `{"t":42}`, `{"t":"42"}`
+	case "payload-bool":
+		base.Payload, other.Payload = `{"t":true,"u":null}`, `{"t":"true","u":"<nil>"}`
+	case "payload-split":
+		base.Payload, other.Payload = `{"token":"abc","user":"bob"}`, `{"token":"abc user:bob"}`
+	case "payload-nested":
+		base.Payload, other.Payload = `{"a":{"role":"admin"}}`, `{"a":"map[role:admin]"}`
 	}
 	if s.Mode == "sse" {
 		base.Proto, other.Proto = "", ""
@@ -147,10 +160,12 @@ func tuples(s Schedule) []tuple {
 	return []tuple{base, other}
 }
 
+const badVariables = `{"broken":` // not JSON: json.RawMessage refuses to be marshalled, the subscribe frame cannot be encoded
+
 func options(s Schedule, t tuple, addr string) client.Options {
 	o := client.Options{Headers: http.Header{"X-Verif-K": []string{t.Hdr}, "X-Verif-Fixed": []string{"1"}}}
 	if t.Payload != "" {
-		o.InitPayload = map[string]any{"p": t.Payload}
+		json.Unmarshal([]byte(t.Payload), &o.InitPayload)
 	}
 	if s.Mode == "sse" {
 		o.Endpoint = "http://" + addr + t.Path
@@ -167,6 +182,77 @@ func options(s Schedule, t tuple, addr string) client.Options {
 	return o
 }
 
+// observe reads a GraphQL result as a handler received it: which top-level fields it has (variant d | de | dx as sent
+// by the server, anything else is reported literally) and which subscription / frame number its parts name. Parts that
+// disagree with each other - e.g. errors left over from another frame - give the variant "mixed".
+func observe(result []byte) (v string, id, n int) {
+	var r struct {
+		Data       json.RawMessage `json:"data"`
+		Errors     json.RawMessage `json:"errors"`
+		Extensions json.RawMessage `json:"extensions"`
+	}
+	if json.Unmarshal(result, &r) != nil {
+		return "garbage", 0, 0
+	}
+	type sn struct {
+		S int `json:"s"`
+		N int `json:"n"`
+	}
+	var parts []sn
+	letters := ""
+	present := func(b json.RawMessage) bool { return len(b) > 0 && string(b) != "null" }
+	if present(r.Data) {
+		var x sn
+		json.Unmarshal(r.Data, &x)
+		parts = append(parts, x)
+		letters += "d"
+	}
+	if present(r.Errors) {
+		var es []struct {
+			Extensions sn `json:"extensions"`
+		}
+		json.Unmarshal(r.Errors, &es)
+		if len(es) > 0 {
+			parts = append(parts, es[0].Extensions)
+		} else {
+			parts = append(parts, sn{})
+		}
+		letters += "e"
+	}
+	if present(r.Extensions) {
+		var x sn
+		json.Unmarshal(r.Extensions, &x)
+		parts = append(parts, x)
+		letters += "x"
+	}
+	for _, p := range parts {
+		if p != parts[0] {
+			return "mixed:" + letters, parts[0].S, parts[0].N
+		}
+	}
+	if len(parts) > 0 {
+		id, n = parts[0].S, parts[0].N
+	}
+	switch letters {
+	case "d":
+		return "d", id, n
+	case "e":
+		return "de", id, n
+	case "dx":
+		return "dx", id, n
+	}
+	return "fields:" + letters, id, n
+}
+
+// closeCode extracts the WebSocket close code from a connection error (0 = none).
+func closeCode(err error) int {
+	var ce websocket.CloseError
+	if errors.As(err, &ce) {
+		return int(ce.Code)
+	}
+	return 0
+}
+
 func classify(err error) string {
 	switch {
 	case err == nil:
@@ -181,6 +267,8 @@ func classify(err error) string {
 		return "closed"
 	case errors.Is(err, context.Canceled), strings.Contains(err.Error(), "context canceled"):
 		return "ctx"
+	case strings.Contains(err.Error(), "MarshalJSON"), strings.Contains(err.Error(), "failed to marshal"), strings.Contains(err.Error(), "marshal request"), strings.Contains(err.Error(), "marshal variables"):
+		return "encode"
 	case strings.Contains(err.Error(), "unexpected status"):
 		return "status"
 	case errors.Is(err, client.ErrDialFailed):
@@ -234,21 +322,13 @@ func (r *runner) settle() {
 
 func (r *runner) handler(s int) client.Handler {
 	return func(m *client.Message) {
-		e := ev{"ev": "h", "s": s, "k": "unknown", "n": 0, "id": 0}
-		var probe struct {
-			Data *struct {
-				S int `json:"s"`
-				N int `json:"n"`
-			} `json:"data"`
-		}
+		e := ev{"ev": "h", "s": s, "k": "unknown", "n": 0, "id": 0, "v": "-"}
 		switch m.Type {
 		case client.MessageTypeData:
 			e["k"] = "next"
 			if m.Payload != nil {
 				b, _ := json.Marshal(m.Payload)
-				if json.Unmarshal(b, &probe) == nil && probe.Data != nil {
-					e["id"], e["n"] = probe.Data.S, probe.Data.N
-				}
+				e["v"], e["id"], e["n"] = observe(b)
 			}
 		case client.MessageTypeError:
 			e["k"] = "error"
@@ -274,6 +354,7 @@ func (r *runner) handler(s int) client.Handler {
 			e["k"] = "connerr"
 			if m.Err != nil {
 				e["x"] = classify(m.Err)
+				e["n"] = closeCode(m.Err)
 			}
 		}
 		r.rec.add(e)
@@ -299,6 +380,9 @@ func (r *runner) call(s int) {
 	}
 	opts := options(r.s, tuples(r.s)[r.s.Key[s-1]-1], r.sv.addr())
 	req := &client.Request{Query: fmt.Sprintf("subscription { s%d }", s)}
+	if s-1 < len(r.s.Bad) && r.s.Bad[s-1] {
+		req.Variables = json.RawMessage(badVariables)
+	}
 	h := r.handler(s)
 	go func() {
 		defer close(sub.done)
@@ -423,22 +507,22 @@ func (r *runner) step(st Step) {
 		n := c.nsent[st.S] + 1
 		c.mu.Unlock()
 		if r.s.Mode == "sse" {
-			r.rec.add(ev{"ev": "srv.send", "c": c.n, "s": st.S, "k": st.K, "n": n})
+			r.rec.add(ev{"ev": "srv.send", "c": c.n, "s": st.S, "k": st.K, "n": n, "v": variantOf(st)})
 			c.mu.Lock()
 			c.nsent[st.S] = n
 			c.mu.Unlock()
-			if err := c.sseEvent(st.K, st.S, n); err != nil {
+			if err := c.sseEvent(st.K, variantOf(st), st.S, n); err != nil {
 				r.res.Unrealised++
 			}
 			r.settle()
 			return
 		}
-		b, ok := c.frame(st.S, st.K, n)
+		b, ok := c.frame(st.S, st.K, variantOf(st), n)
 		if !ok {
 			r.res.Unrealised++
 			return
 		}
-		r.rec.add(ev{"ev": "srv.send", "c": c.n, "s": st.S, "k": st.K, "n": n})
+		r.rec.add(ev{"ev": "srv.send", "c": c.n, "s": st.S, "k": st.K, "n": n, "v": variantOf(st)})
 		c.mu.Lock()
 		c.nsent[st.S] = n
 		c.mu.Unlock()
@@ -452,12 +536,18 @@ func (r *runner) step(st Step) {
 			r.res.Unrealised++
 			return
 		}
-		r.rec.add(ev{"ev": "srv.close", "c": c.n, "s": c.sseSub})
+		code := 0
+		if st.K != "" && c.ws != nil {
+			fmt.Sscan(st.K, &code)
+		}
+		r.rec.add(ev{"ev": "srv.close", "c": c.n, "s": c.sseSub, "n": code})
 		c.mu.Lock()
 		c.closedBy = "server"
 		done := c.sseDone
 		c.mu.Unlock()
-		if c.ws != nil {
+		if c.ws != nil && code != 0 {
+			c.ws.Close(websocket.StatusCode(code), "scripted close") // close frame with code, waits for the client's answer
+		} else if c.ws != nil {
 			c.ws.CloseNow()
 		} else if done != nil {
 			close(done)
@@ -465,9 +555,42 @@ func (r *runner) step(st Step) {
 			r.res.Unrealised++
 		}
 		r.settle()
+	case "Mute":
+		c := r.sconnOf(st.C)
+		if c == nil || c.isGone() || c.ws == nil || !r.s.Ping {
+			r.res.Unrealised++
+			return
+		}
+		r.rec.add(ev{"ev": "srv.mute", "c": c.n})
+		c.mu.Lock()
+		c.muted = true
+		c.mu.Unlock()
+		// real timers: the ping loop needs up to interval + timeout + interval to notice; generous limit
+		deadline := time.Now().Add(pingInterval*3 + pingTimeout + 2*time.Second)
+		for !c.isGone() && time.Now().Before(deadline) {
+			time.Sleep(5 * time.Millisecond)
+		}
+		r.settle()
 	default:
 		r.res.Unrealised++
 	}
+}
+
+const (
+	// the interval must exceed the timeout: pingLoop refreshes lastPingSentAt on every tick, so with interval <= timeout
+	// pongOverdue() never sees "sent longer ago than the timeout" and a silent upstream is never detected
+	pingInterval = 300 * time.Millisecond
+	pingTimeout  = 100 * time.Millisecond
+)
+
+func variantOf(st Step) string {
+	if st.K != "next" {
+		return "-"
+	}
+	if st.V == "" || st.V == "-" {
+		return "d"
+	}
+	return st.V
 }
 
 func (c *sconn) isGone() bool {
@@ -514,7 +637,7 @@ func runSchedule(s Schedule, w *bufio.Writer) Result {
 	tr := &http.Transport{DialContext: reg.dialContext, DisableKeepAlives: true}
 	cctx, ccancel := context.WithCancel(context.Background())
 	idle := time.Duration(s.IdleMs) * time.Millisecond
-	cl := client.New(cctx, client.Config{
+	ccfg := client.Config{
 		UpgradeClient:   &http.Client{Transport: tr},
 		StreamingClient: &http.Client{Transport: tr},
 		// only scripted events may expire: no pings, acknowledgement and write deadlines far away
@@ -522,10 +645,15 @@ func runSchedule(s Schedule, w *bufio.Writer) Result {
 		AckTimeout:    2 * time.Minute,
 		WriteTimeout:  2 * time.Minute,
 		WSIdleTimeout: idle,
-	})
+	}
+	if s.Ping {
+		// pings on: the server answers every ping at once until a "Mute" step; the timeout is far above any scheduling delay
+		ccfg.PingInterval, ccfg.PingTimeout = pingInterval, pingTimeout
+	}
+	cl := client.New(cctx, ccfg)
 	r := &runner{s: s, rec: rec, reg: reg, sv: sv, cl: cl, res: &res, idle: idle}
 	if s.Level == "ds" {
-		r.ds = newDSClient(cctx, &http.Client{Transport: tr})
+		r.ds = newDSClient(cctx, &http.Client{Transport: tr}, ccfg.PingInterval, ccfg.PingTimeout)
 		r.idle, idle = 0, 0
 	}
 	r.st = &settler{reg: reg, events: rec.count}
@@ -537,7 +665,9 @@ func runSchedule(s Schedule, w *bufio.Writer) Result {
 	if idle > 0 {
 		idleName = "pos"
 	}
-	rec.add(ev{"ev": "reset", "id": s.ID, "key": s.Key, "idle": idleName, "mode": s.Mode})
+	bad := make([]bool, len(s.Key))
+	copy(bad, s.Bad)
+	rec.add(ev{"ev": "reset", "id": s.ID, "key": s.Key, "idle": idleName, "mode": s.Mode, "bad": bad, "ping": s.Ping})
 	for _, st := range s.Steps {
 		r.step(st)
 	}
@@ -594,6 +724,9 @@ func runSchedule(s Schedule, w *bufio.Writer) Result {
 			if _, ok := e[k]; !ok {
 				e[k] = 0
 			}
+		}
+		if _, ok := e["v"]; !ok {
+			e["v"] = "-"
 		}
 		for _, k := range []string{"k", "x"} {
 			if _, ok := e[k]; !ok {
